@@ -670,7 +670,9 @@ class ClientDriver(ReorgDriver):
             def reported():
                 # the block processor has handed its current height to Notifications (after an intermediate
                 # flush it may still be waiting for a slow or failing daemon call made before the tail began)
-                return self.notif.last_block == d.height
+                # ... and no set handed over with a block report is still waiting for the next refresh at that height
+                # (a report that arrives after the refresh of its height is delivered with the next one: deferred)
+                return self.notif.last_block == d.height and not self.notif.block_pending
             r = w.run(lambda: refreshed() and w.caught_up() and reported(), 600.0)
             if r != 'pred':
                 return False
@@ -1060,10 +1062,8 @@ class SubsFamily(ReorgFamily):
                              delay=rng.choice([2.0, 6.0, 12.0, 25.0])))
         return dict(op='on_rpc', method=rng.choice(self.RPC_METHODS), skip=rng.randrange(3), then=then)
 
-    # Switched off by default (VERIF_UNTRIAGED_MOTIFS=1 enables it): on the unchanged tree this motif produced an alarm
-    # (C10/get_history.confirmed, seed 1000259, replay kept as findings/untriaged-C10-child-same-height-reorg.json)
-    # that could not be triaged before the end of the session - see DESIGN.md section 14.
-    CHILD_MOTIF = os.environ.get('VERIF_UNTRIAGED_MOTIFS') == '1'
+    # (VERIF_NO_CHILD_MOTIF=1 switches the motif off)
+    CHILD_MOTIF = os.environ.get('VERIF_NO_CHILD_MOTIF') != '1'
 
     def child_across_same_height_reorg(self, rng, k, plan):
         """motif: a new unconfirmed child of a transaction of the tip block whose raw-transaction fetch is slow; while
